@@ -378,17 +378,20 @@ func c10Crypto(c *engine.Ctx) {
 		}
 	}
 	if fn := c.MustFunc("C10.R5", "crypto", "CheckDHParams"); fn != nil {
-		for _, r := range engine.SuccessReturns(fn) {
-			cnt := 0
-			for _, g := range engine.Guards(r) {
-				k := g.Cmp()
-				call := isCallTo(k.X, "crypto.InRange")
-				b, isB := engine.ConstBool(k.Y)
-				if call != nil && isB && b && k.Op == token.EQL {
-					cnt++
+		// decided by class evaluation (bigrange.go): no order class of (g, g_a, g_b)
+		// outside one of the five specified ranges may be accepted
+		d := dhParamsEval(c)
+		if d.err != nil {
+			c.Undecided("C10.R5", "CheckDHParams/range-tests", fn.Pos(), "class evaluation of CheckDHParams failed: %v", d.err)
+		} else {
+			bad, n := "", 0
+			for _, r := range d.ranges {
+				if cls := d.acceptedOutside(r); cls != "" {
+					bad = r.name + ": " + cls
+					n++
 				}
 			}
-			c.Check(cnt >= 5, "C10.R5", "CheckDHParams/range-tests", r.Pos(), "CheckDHParams must apply the five range tests on the accepting path (found %d)", cnt)
+			c.Check(n == 0, "C10.R5", "CheckDHParams/range-tests", fn.Pos(), "CheckDHParams must refuse every value outside the five ranges (%d evaluated classes); accepted outside %s", d.t.Runs, bad)
 		}
 	}
 }
